@@ -20,6 +20,14 @@ type C16Plan struct {
 
 func genPassword(r *core.Rand) []byte {
 	n := r.Range(6, 16)
+	switch r.Pick(10, 3, 2, 1) {
+	case 1: // pass phrases; MD5's block size is 64 bytes, the salt follows the password
+		n = r.Range(17, 140)
+	case 2:
+		n = core.Choice(r, []int{47, 48, 55, 56, 57, 63, 64, 65, 119, 120, 121, 127, 128, 129, 191, 192, 255, 256, 257})
+	case 3:
+		n = r.Range(141, 1200)
+	}
 	b := make([]byte, n)
 	for i := range b {
 		switch r.Pick(8, 2, 1) {
@@ -40,7 +48,7 @@ func genPassword(r *core.Rand) []byte {
 }
 
 func genChallenge(r *core.Rand) string {
-	switch r.Pick(6, 2, 2, 1) {
+	switch r.Pick(6, 2, 2, 1, 1) {
 	case 0:
 		return fmt.Sprintf("%08d", r.Intn(100000000))
 	case 1:
@@ -55,6 +63,13 @@ func genChallenge(r *core.Rand) string {
 		b := make([]byte, n)
 		for i := range b {
 			b[i] = alnum[r.Intn(len(alnum))]
+		}
+		return string(b)
+	case 3:
+		n := core.Choice(r, []int{48, 56, 57, 63, 64, 65, 120, 128, 129, 200, 300})
+		b := make([]byte, n)
+		for i := range b {
+			b[i] = byte('0' + r.Intn(10))
 		}
 		return string(b)
 	default:
